@@ -655,7 +655,7 @@ extern "C" int __wrap_select(int nfds,fd_set*r,fd_set*w,fd_set*e,struct timeval*
 namespace simk {
 static FsImage FS;
 static std::vector<FsEvent> journal;
-static uint64_t next_ino=100, n_opens=0;
+static uint64_t next_ino=100, n_opens=0, n_urandom_opens=0;
 static std::vector<std::string> open_log;
 struct SimDir { std::vector<std::string> names; size_t pos=0; };
 static std::set<void*> simdirs;
@@ -664,7 +664,7 @@ static std::string norm(const std::string &p){ std::string r; for(char c:p){ if(
 static std::string parent(const std::string &p){ size_t i=p.rfind('/'); return i==std::string::npos||i==0? "/" : p.substr(0,i); }
 static std::map<FILE*,size_t> stdio_tracked; static bool stdio_stuck=false;   // tracked stream -> bytes written since the last successful flush
 static void stdio_reset(){ stdio_tracked.clear(); stdio_stuck=false; }
-static void fs_reset(){ stdio_reset(); FS.files.clear(); FS.dirs.clear(); FS.dirs.insert(P.vroot); journal.clear(); next_ino=100; n_opens=0; open_log.clear(); for(void*d:simdirs) delete (SimDir*)d; simdirs.clear(); }
+static void fs_reset(){ stdio_reset(); FS.files.clear(); FS.dirs.clear(); FS.dirs.insert(P.vroot); journal.clear(); next_ino=100; n_opens=0; n_urandom_opens=0; open_log.clear(); for(void*d:simdirs) delete (SimDir*)d; simdirs.clear(); }
 FsImage fs_snapshot(){ FsImage r; r.dirs=FS.dirs; for(auto&kv:FS.files) r.files[kv.first]=std::make_shared<FsFile>(*kv.second); return r; }
 void fs_restore(const FsImage&img){ FS.dirs=img.dirs; FS.files.clear(); for(auto&kv:img.files) FS.files[kv.first]=std::make_shared<FsFile>(*kv.second); }
 std::vector<FsEvent> &fs_journal(){ return journal; }
@@ -718,7 +718,7 @@ static int file_fcntl(Obj&o,int cmd,void*arg){
 }
 static void fill_stat(struct stat*st,FsFile*f,bool dir){ memset(st,0,sizeof(*st)); st->st_dev=7; st->st_nlink=1; if(dir){ st->st_mode=S_IFDIR|0777; st->st_ino=2; } else { st->st_mode=S_IFREG|0666; st->st_size=f->data.size(); st->st_ino=f->ino; } }
 extern "C" int __wrap_open(const char*path,int flags,...){ IGN; mode_t mode=0; if(flags&O_CREAT){ va_list ap; va_start(ap,flags); mode=va_arg(ap,mode_t); va_end(ap); }
-	if(g_active && path && strcmp(path,"/dev/urandom")==0){ yield(); auto o=std::make_shared<Obj>(); o->kind=Obj::URANDOM; o->path=path; o->oflags=flags; return newfd(o); }
+	if(g_active && path && strcmp(path,"/dev/urandom")==0){ yield(); { uint64_t i=n_urandom_opens++; for(uint32_t x:P.urandom_fail_at) if(x==i){ S.urandom_open_failed++; trace_mix(0x0EF110 + i); tracef("open /dev/urandom: EMFILE (injected)"); errno=EMFILE; return -1; } } auto o=std::make_shared<Obj>(); o->kind=Obj::URANDOM; o->path=path; o->oflags=flags; return newfd(o); }
 	if(!under_root(path)) return __real_open(path,flags,mode);
 	yield(); std::string p=norm(path); n_opens++; open_log.push_back(p);
 	if(FS.dirs.count(p)){ errno=EISDIR; return -1; }
